@@ -17,7 +17,30 @@ def pick_W(rng, n):
     return rng.choice([1, 2, 3, 4, 8, 16, n + 3])
 
 
-def execute(desc, pre=None, post=None, progress=None, record_args=True, track_results=False, ir=None, extra_run_kwargs=None, before_run=None):
+def _hang_watch(H, desc, on_hang):
+    """Cheap logical-deadlock watcher (50 ms sampling of kernel thread states): a run that can never finish is reported at once
+    (by default as *inconclusive* for the property at hand - C07 owns the hang verdict) instead of waiting for the wall-clock watchdog."""
+    from . import abort, quiesce
+
+    if not quiesce.available():
+        return None
+
+    def on_deadlock(stacks):
+        if on_hang is not None:
+            on_hang(stacks)
+        abort.abort_with({"status": "inconclusive", "mechanism": "hang",
+                          "detail": "logical deadlock: every engine thread (incl. the caller of run) is parked in an untimed wait, no call is executing, "
+                                    "run has not returned (the hang itself is C07's verdict)",
+                          "witness": {"stacks": stacks, "history": H.compact_history(300), "desc": desc}})
+
+    drv = quiesce.WaveDriver(random.Random(0), on_deadlock=on_deadlock, period=0.05)
+    drv.open = True
+    drv.start()
+    return drv
+
+
+def execute(desc, pre=None, post=None, progress=None, record_args=True, track_results=False, ir=None, extra_run_kwargs=None, before_run=None,
+            hang_watch=True, on_hang=None):
     """desc keys: seed, n, family, W, sched, perturb, rich, max_errors, retry, fail (list of skeleton idx -> kind)."""
     import uberjob
 
@@ -74,11 +97,17 @@ def execute(desc, pre=None, post=None, progress=None, record_args=True, track_re
         before_run(R)
     before = rec.thread_census()
     P = pert.make(seed, desc.get("perturb", "none"))
-    with P:
-        try:
-            R.result = uberjob.run(plan, **kw)
-        except BaseException as e:  # noqa
-            R.exc = e
+    drv = _hang_watch(H, desc, on_hang) if hang_watch else None
+    try:
+        with P:
+            try:
+                R.result = uberjob.run(plan, **kw)
+            except BaseException as e:  # noqa
+                R.exc = e
+    finally:
+        if drv is not None:
+            drv.run_done = True
+            drv.stop()
     R.seq_at_return = H.seq
     R.leaked = rec.new_threads(before)
     R.in_flight_at_return = H.in_flight
@@ -86,7 +115,21 @@ def execute(desc, pre=None, post=None, progress=None, record_args=True, track_re
     return R
 
 
+class FalsyError(Exception):
+    """an exception instance whose truth value is False (it has a length of 0): `if exc:` is not `if exc is not None:`"""
+
+    def __len__(self):
+        return 0
+
+
+class FalsyBase(BaseException):
+    def __bool__(self):
+        return False
+
+
 EXC_KINDS = {
+    "falsy": FalsyError,
+    "falsybase": FalsyBase,
     "exc": rec.InjectedError,
     "base": rec.InjectedBase,
     "kbi": KeyboardInterrupt,
